@@ -479,7 +479,12 @@ def run_hist(c):
         elif not np.array_equal(f.array, init_arr):
             out.append("values-not-verbatim")
         if v0["kind"] == "norm":
-            pass
+            # validity = "norm" in the constructor is decided on the values the field ends up with
+            # (values, then norm, then validity)
+            nv0 = [F(x) for x in f.norm.array.reshape(-1).tolist()]
+            for nn, vb in zip(nv0, f.valid.reshape(-1).tolist()):
+                if (nn <= ATOL * (1 - F(1, 10 ** 9)) and vb) or (nn >= ATOL * (1 + F(1, 10 ** 9)) and not vb):
+                    out.append("constructor-validity-not-from-final-norm")
         for o in c["ops"]:
             before = f.array.copy()
             if o["op"] == "setnorm":
@@ -635,13 +640,15 @@ def run_rejected(c):
 
 
 def run_case(c):
-    if c["kind"] == "hist":
-        return run_hist(c)
-    if c["kind"] == "rel":
-        return run_rel(c)
-    if c["kind"] == "intdtype":
-        return run_intdtype(c)
-    return run_rejected(c)
+    fn = {"hist": run_hist, "rel": run_rel, "intdtype": run_intdtype}.get(c["kind"], run_rejected)
+    try:
+        return fn(c)
+    except Exception as e:  # noqa: BLE001
+        # a public call that the property requires to succeed (constructor on well-formed data, norm
+        # getter, orientation, …) raised: that is a failing input, not an infrastructure problem
+        return dict(kind=c["kind"], case=c, obs=dict(exception=type(e).__name__), coq=None,
+                    oracle=["required-call-raised"], tags=[], key=f'{c["kind"]}/exception/{type(e).__name__}',
+                    size=len(c.get("vals", [])))
 
 
 def stats(records):
